@@ -25,6 +25,7 @@ import (
 	"net"
 	"strings"
 	"sync"
+	"sync/atomic"
 	"time"
 
 	mqPkts "github.com/eclipse/paho.mqtt.golang/packets"
@@ -65,6 +66,16 @@ type handler1 struct {
 	// client with the changes of the state which decide whether a packet
 	// is sent or buffered (snSend is called from both receive loops).
 	snSendMutex sync.Mutex
+
+	// Keeping the MQTT connection of a sleeping client alive (see
+	// mqttPing and startSleepPinger).
+	// Number of client's PINGREQs passed to the MQTT broker and not
+	// answered yet (atomic).
+	clientPings int32
+	// The last sleep duration announced by the client and the function
+	// stopping the current sleep pinger (used by snReceiveLoop only).
+	sleepDuration     uint16
+	cancelSleepPinger context.CancelFunc
 }
 
 const (
@@ -447,7 +458,13 @@ func (h *handler1) handleMqtt(ctx context.Context, pkt mqPkts.ControlPacket) err
 
 	// Client PING transaction (keepalive).
 	case *mqPkts.PingrespPacket:
-		// Response to sleepPinger pings => do not pass to the sleeping client.
+		// Response to a PINGREQ sent by the gateway itself (sleep pinger
+		// or mqttPing) => do not pass to the client.
+		if atomic.LoadInt32(&h.clientPings) <= 0 {
+			return nil
+		}
+		atomic.AddInt32(&h.clientPings, -1)
+		// Do not pass to a sleeping client either.
 		if h.state.Get() != util.StateActive {
 			return nil
 		}
@@ -489,6 +506,17 @@ func (h *handler1) snReceiveLoop(ctx context.Context) error {
 			return err
 		}
 	}
+}
+
+// mqttPing sends PINGREQ to the MQTT broker on behalf of the gateway itself.
+// The MQTT broker watches the connection using the keepalive. A sleeping
+// client fulfils its obligations by sending DISCONNECT with a duration,
+// PINGREQ when it wakes up, or CONNECT when it returns to the active state,
+// none of which results in a MQTT packet. The gateway sends PINGREQ for them,
+// otherwise the broker would not see the client is alive.
+func (h *handler1) mqttPing() error {
+	p := mqPkts.NewControlPacket(mqPkts.Pingreq).(*mqPkts.PingreqPacket)
+	return h.mqttSend(p)
 }
 
 func (h *handler1) mqttReceiveLoop(ctx context.Context) error {
@@ -564,6 +592,10 @@ func (h *handler1) handleConnect(ctx context.Context, snConnect *snPkts1.Connect
 	// connection, it only signalizes client's will to transition to the
 	// active state (see doc/specification-interpretation.md).
 	if state := h.state.Get(); state == util.StateAwake || state == util.StateAsleep {
+		h.stopSleepPinger()
+		if err := h.mqttPing(); err != nil {
+			return err
+		}
 		h.snSendMutex.Lock()
 		defer h.snSendMutex.Unlock()
 		h.setState(util.StateActive)
@@ -845,6 +877,12 @@ func (h *handler1) handleMqttSn(ctx context.Context, pkt snPkts.Packet) error {
 	// Client PING transaction (going AWAKE or just a keepalive).
 	case *snPkts1.Pingreq:
 		if h.state.Get() == util.StateAsleep {
+			// The client is alive and sleeps again for the duration
+			// it has announced.
+			h.startSleepPinger(ctx, h.sleepDuration)
+			if err := h.mqttPing(); err != nil {
+				return err
+			}
 			// The buffered packets and PINGRESP are sent in one
 			// piece: packets from the MQTT broker arriving in the
 			// meantime wait and are buffered for the next wake-up.
@@ -860,6 +898,7 @@ func (h *handler1) handleMqttSn(ctx context.Context, pkt snPkts.Packet) error {
 			h.setState(util.StateAsleep)
 			return err
 		} else {
+			atomic.AddInt32(&h.clientPings, 1)
 			mqPkt := mqPkts.NewControlPacket(mqPkts.Pingreq).(*mqPkts.PingreqPacket)
 			return h.mqttSend(mqPkt)
 		}
@@ -877,10 +916,11 @@ func (h *handler1) handleMqttSn(ctx context.Context, pkt snPkts.Packet) error {
 			return Shutdown
 		} else {
 			h.log.Debug("Going to sleep for %vs", snPkt.Duration)
-			if h.keepAlive != 0 && snPkt.Duration > h.keepAlive {
-				// We must ensure MQTT gateway considers client alive during sleep period.
-				cancelPinger := h.startSleepPinger(ctx)
-				time.AfterFunc(time.Duration(snPkt.Duration)*time.Second, cancelPinger)
+			// We must ensure MQTT gateway considers client alive during sleep period.
+			h.sleepDuration = snPkt.Duration
+			h.startSleepPinger(ctx, h.sleepDuration)
+			if err := h.mqttPing(); err != nil {
+				return err
 			}
 			// The reply is sent (not buffered, even if the client
 			// is already asleep and just repeats or prolongs the
@@ -941,8 +981,19 @@ func (h *handler1) handleMqttSn(ctx context.Context, pkt snPkts.Packet) error {
 	}
 }
 
-func (h *handler1) startSleepPinger(ctx context.Context) context.CancelFunc {
-	ctx2, cancel := context.WithCancel(ctx)
+// startSleepPinger starts a goroutine which keeps the MQTT connection alive
+// for a client which sleeps for the given duration (seconds). There is at most
+// one sleep pinger: the previous one is stopped. The pinger quits after the
+// duration, therefore a client which does not wake up in time is lost for
+// the MQTT broker (and so the session is closed) like any other silent client.
+func (h *handler1) startSleepPinger(ctx context.Context, duration uint16) {
+	h.stopSleepPinger()
+	// The client must wake up before the MQTT keepalive expires.
+	if h.keepAlive == 0 || duration <= h.keepAlive {
+		return
+	}
+	ctx2, cancel := context.WithTimeout(ctx, time.Duration(duration)*time.Second)
+	h.cancelSleepPinger = cancel
 	h.group.Go(func() error {
 		h.log.Debug("Sleep pinger starts.")
 		defer h.log.Debug("Sleep pinger quits.")
@@ -958,7 +1009,13 @@ func (h *handler1) startSleepPinger(ctx context.Context) context.CancelFunc {
 			}
 		}
 	})
-	return cancel
+}
+
+func (h *handler1) stopSleepPinger() {
+	if h.cancelSleepPinger != nil {
+		h.cancelSleepPinger()
+		h.cancelSleepPinger = nil
+	}
 }
 
 func (h *handler1) snSend(pkt snPkts.Packet) error {
